@@ -133,6 +133,21 @@ func init() {
 			"Object.Equal is used as an uninterpreted pure function (go-cmp based)",
 		},
 	}
+	propSpecs["C05"] = &PropSpec{
+		ID:       "C05",
+		Patterns: []string{"./internal/ast", "./internal/ast/compiler", "./internal/orderedmap", "./internal/tools"},
+		Level:    "proof",
+		Prepare:  func(e *Engine) { e.assumeKindInv = true },
+		Opts: func(e *Engine, key string) VerifyOpts {
+			return VerifyOpts{OnlyKinds: []string{"pre", "post", "frame", "inv-init", "inv-pres", "cover"}}
+		},
+		Extra: func(e *Engine, tier string) []*FuncResult { return []*FuncResult{e.refKindsResult()} },
+		Assumptions: []string{
+			"scope: the name-changing transformations rename_object and name prefixing. (1) selection consistency: the object part and the reference part of rename_object are specified by one selection predicate (package exact, name case-insensitive), prefixing applies the same prefix to objects, references and constant references; (2) the entry point name is kept in step with the renamed object (Process-level contracts over an ASSUMED contract of Visitor.VisitSchemas: same length, distinct fresh schemas, package/metadata/entry point carried over, pass structs not written); (3) structural obligations: the visitors of rename_object, name prefixing and allowed_objects handle every reference-carrying kind of ast.Type (derived from its declaration)",
+			"NOT covered: that parsers only emit resolving references, duplicate_object, unspec, replace_reference towards an existing object, discriminator mappings and hints as reference positions, the transitive-closure loop of allowed_objects beyond the kinds its visitor handles, the built-in language chains",
+			"the Visitor's traversal (which nested types it reaches) is assumed, not verified",
+		},
+	}
 	propSpecs["C03"] = &PropSpec{
 		ID:       "C03",
 		Patterns: []string{"./..."},
